@@ -12,6 +12,9 @@ C07 driver.  Ops:
         -> err-decode | err-sender | <source> <target> <nonce> <chainId> <data> <hash> <extraData>
   ser  (same tx fields as vt without cfg)            -> hex of the hashed byte string
   addr <pub65> {oracle}*                             -> hex of PublicKey.GetAddress().GetHexString()
+  sigv <chainId> <sig> | fsigv <sig>                 -> "r s v" of Signer.SignatureValues, or panic
+  nsig <raw65>                                       -> the native secp256k1.Sign wrapper's 65 bytes
+  batch <entry> <height> <cfg×4> <n> <tx×n> {oracle}* -> flags: which positions reached the pool
 
 oracle tokens:  sha=<pre>,<digest>   kec=<pre>,<digest>
                 rec=<msg>,<r>,<s>,<recid 0..3>,<pub65|err>      curve-level recovery, 1 ≤ r,s < N
@@ -173,6 +176,98 @@ def doAddr (toks : List String) : String :=
     | _, _ => "bad-op"
   | _ => "bad-op"
 
+def fmtRSV : Option (Nat × Nat × Nat) → String
+  | none => "panic"
+  | some (r, s, v) => toString r ++ " " ++ toString s ++ " " ++ toString v
+
+/-- `sigv <chainId> <sig>`: `EIP155Signer{chainId}.SignatureValues`; `fsigv <sig>`: Frontier/Homestead;
+    `nsig <raw65>`: the native `secp256k1.Sign` wrapper's output for the library's raw signature. -/
+def doSigv (toks : List String) : String :=
+  match toks with
+  | [c, sg] => match c.toNat?, ofHex? sg with
+    | some c, some sg => fmtRSV (eip155SigValues c sg)
+    | _, _ => "bad-op"
+  | _ => "bad-op"
+
+def doFsigv (toks : List String) : String :=
+  match toks with
+  | [sg] => match ofHex? sg with
+    | some sg => fmtRSV (frontierSigValues sg)
+    | none => "bad-op"
+  | _ => "bad-op"
+
+def doNsig (toks : List String) : String :=
+  match toks with
+  | [raw] => match ofHex? raw with
+    | some raw => if raw.length = 65 then toHex (nativeSignBytes raw) else "bad-op"
+    | none => "bad-op"
+  | _ => "bad-op"
+
+def parseTxs : Nat → List String → Option (List Tx × List String)
+  | 0, rest => some ([], rest)
+  | n + 1, toks =>
+    match parseTx (toks.take 14) with
+    | none => none
+    | some tx =>
+      match parseTxs n (toks.drop 14) with
+      | none => none
+      | some (txs, rest) => some (tx :: txs, rest)
+
+/-- `batch <entry> <height> <cfg×4> <n> <tx×n> {oracle}*` → one flag per position: did the element
+    reach the (initially empty) pool through the admission loop. -/
+def doBatch (toks : List String) : String :=
+  match toks with
+  | _entry :: height :: rest =>
+    match height.toNat?, parseCfg (rest.take 4), ((rest.drop 4).head?).bind String.toNat? with
+    | some h, some cfg, some n =>
+      if n > 64 then "bad-op" else
+      match parseTxs n (rest.drop 5) with
+      | none => "bad-op"
+      | some (txs, orc) =>
+        match parseOracles orc with
+        | none => "bad-op"
+        | some t =>
+          let cr := t.crypto
+          match firstMissing t (txs.flatMap (queries cr cfg h)) with
+          | some q => "oracle-miss " ++ queryName q
+          | none =>
+            -- entry "worker+k" / "write+k" / "runwrite+k": the first k transactions are already in the
+            -- pool (put there directly), the handler sees the rest
+            let k := match (_entry.splitOn "+") with
+              | [_, ks] => ks.toNat?.getD 0
+              | _ => 0
+            let pre := (txs.take k).map (·.hash)
+            String.ofList ((admitFlags cr cfg h pre (txs.drop k)).map (fun b => if b then '1' else '0'))
+    | _, _, _ => "bad-op"
+  | _ => "bad-op"
+
+def natList? : List String → Option (List Nat)
+  | [] => some []
+  | x :: xs => do
+    let n ← x.toNat?
+    let r ← natList? xs
+    pure (n :: r)
+
+/-- `scache <payload> <c1,c2,…> {oracle}*`: `eth_tx.Sender` called in sequence on ONE decoded
+    transaction object with EIP-155 signers of the given chain ids. -/
+def doScache (toks : List String) : String :=
+  match toks with
+  | enc :: cs :: rest =>
+    match ofHex? enc, natList? (cs.splitOn ","), parseOracles rest with
+    | some enc, some cs, some t =>
+      let cr := t.crypto
+      match decodeTx enc with
+      | none => "err-decode"
+      | some e =>
+        match firstMissing t (cs.flatMap (fun c => ethSenderQueries cr c e)) with
+        | some q => "oracle-miss " ++ queryName q
+        | none =>
+          String.intercalate " " ((senderRun cr e none cs).map (fun o => match o with
+            | some a => toHex a
+            | none => "err"))
+    | _, _, _ => "bad-op"
+  | _ => "bad-op"
+
 def doSer (toks : List String) : String :=
   match parseTx toks with
   | some tx => toHex (ser tx)
@@ -184,6 +279,11 @@ def step (_ : Unit) (line : String) : Unit × String :=
   | "conv" :: rest => ((), doConv rest)
   | "ser" :: rest => ((), doSer rest)
   | "addr" :: rest => ((), doAddr rest)
+  | "sigv" :: rest => ((), doSigv rest)
+  | "fsigv" :: rest => ((), doFsigv rest)
+  | "nsig" :: rest => ((), doNsig rest)
+  | "batch" :: rest => ((), doBatch rest)
+  | "scache" :: rest => ((), doScache rest)
   | _ => ((), "bad-op")
 
 def run : IO Unit := runLines () step
